@@ -37,11 +37,12 @@ VARIABLES kind,       \* probe kind of the input (fixed along a behaviour)
           widx,       \* windows processed
           cs, cph, csub,   \* compression cursor: shank, "ap"/"lf", sub-step
           checkDone,  \* check_completed of the running converter object
+          verified,   \* the split output currently on disk was compared with the original by THIS run (history variable)
           status,     \* outcome of the last finished run: "none", "1", "0", "m1" (= -1), "crashed" (injected), "raised" (intrinsic)
           nruns,
           fs0         \* directory when the running run began (history variable)
 
-vars == <<kind, fs, opts, rpc, widx, cs, cph, csub, checkDone, status, nruns, fs0>>
+vars == <<kind, fs, opts, rpc, widx, cs, cph, csub, checkDone, verified, status, nruns, fs0>>
 
 Opts == [ow : BOOLEAN, chk : BOOLEAN, cmp : BOOLEAN, del : BOOLEAN]
 ShOf(k) == IF k = "NP24" THEN Sh ELSE {0}
@@ -56,11 +57,11 @@ Init ==
                               ELSE IF x = "origc" THEN (IF form = "cbin" THEN "C" ELSE "A")
                               ELSE IF kind = "NP21" /\ x = "dir0" THEN "C" ELSE "A"]
     /\ opts = [ow |-> FALSE, chk |-> FALSE, cmp |-> FALSE, del |-> FALSE]
-    /\ rpc = "idle" /\ widx = 0 /\ cs = 0 /\ cph = "ap" /\ csub = "stale" /\ checkDone = FALSE
+    /\ rpc = "idle" /\ widx = 0 /\ cs = 0 /\ cph = "ap" /\ csub = "stale" /\ checkDone = FALSE /\ verified = FALSE
     /\ status = "none" /\ nruns = 0 /\ fs0 = fs
 
 Finish(st) == /\ rpc' = "idle" /\ status' = st /\ nruns' = nruns + 1
-              /\ UNCHANGED <<kind, opts, widx, cs, cph, csub, checkDone, fs0>>
+              /\ UNCHANGED <<kind, opts, widx, cs, cph, csub, checkDone, verified, fs0>>
 
 \* NP2Converter(ap_file, ...) ; process(overwrite)
 Begin(o) ==
@@ -70,7 +71,7 @@ Begin(o) ==
     \* compressed already) and then its single LF file; the stale .cbin is unlinked only when overwriting
     /\ cs' = 0 /\ cph' = (IF kind = "NP21" THEN "lf" ELSE "ap")
     /\ csub' = (IF kind = "NP21" /\ fs["orig"] = "C" THEN "orig" ELSE IF o.ow THEN "stale" ELSE "comp")
-    /\ checkDone' = FALSE /\ status' = "none" /\ fs0' = fs
+    /\ checkDone' = FALSE /\ verified' = FALSE /\ status' = "none" /\ fs0' = fs
     /\ UNCHANGED <<kind, fs, nruns>>
 
 \* process(overwrite) called again on the SAME converter object (overwrite is an argument of process(), the other options
@@ -80,7 +81,7 @@ BeginReuse(ow) ==
     /\ opts' = [opts EXCEPT !.ow = ow] /\ rpc' = "prepare" /\ widx' = 0
     /\ cs' = 0 /\ cph' = (IF kind = "NP21" THEN "lf" ELSE "ap")
     /\ csub' = (IF kind = "NP21" /\ fs["orig"] = "C" THEN "orig" ELSE IF ow THEN "stale" ELSE "comp")
-    /\ status' = "none" /\ fs0' = fs
+    /\ status' = "none" /\ fs0' = fs /\ verified' = FALSE
     /\ UNCHANGED <<kind, fs, nruns, checkDone>>
 
 \* _prepare_files_NP24 / _NP21 (and the early exits of process())
@@ -93,13 +94,13 @@ Prepare ==
                   exists == \E s \in Sh : fs[K("dir", s)] # "A" /\ ~opts.ow
               IN /\ fs' = SetAll(SetAll(SetAll(fs, "dir", redo, "C"), "ap", redo, "P"), "lf", redo, "P")
                  /\ IF exists THEN Finish("0")
-                    ELSE rpc' = "window" /\ UNCHANGED <<kind, opts, widx, cs, cph, csub, checkDone, status, nruns, fs0>>
+                    ELSE rpc' = "window" /\ UNCHANGED <<kind, opts, widx, cs, cph, csub, checkDone, verified, status, nruns, fs0>>
          [] kind = "NP21" ->
               LET exists == fs["lf0"] # "A" \/ fs["lfc0"] # "A"
               IN IF exists /\ ~opts.ow
                  THEN fs' = fs /\ Finish("0")
                  ELSE /\ fs' = Set1(fs, "lf0", "P")
-                      /\ rpc' = "window" /\ UNCHANGED <<kind, opts, widx, cs, cph, csub, checkDone, status, nruns, fs0>>
+                      /\ rpc' = "window" /\ UNCHANGED <<kind, opts, widx, cs, cph, csub, checkDone, verified, status, nruns, fs0>>
 
 \* one iteration of the window loop; the files are complete once the last window is written
 Window ==
@@ -109,31 +110,31 @@ Window ==
        THEN /\ fs' = (IF kind = "NP24" THEN SetAll(SetAll(fs, "ap", Sh, "C"), "lf", Sh, "C") ELSE Set1(fs, "lf0", "C"))
             /\ rpc' = "close"
        ELSE fs' = fs /\ rpc' = "window"
-    /\ UNCHANGED <<kind, opts, cs, cph, csub, checkDone, status, nruns, fs0>>
+    /\ UNCHANGED <<kind, opts, cs, cph, csub, checkDone, verified, status, nruns, fs0>>
 
 Close ==
     /\ rpc = "close"
     /\ rpc' = (IF kind = "NP24" THEN "meta_ap" ELSE "meta_lf")
-    /\ UNCHANGED <<kind, fs, opts, widx, cs, cph, csub, checkDone, status, nruns, fs0>>
+    /\ UNCHANGED <<kind, fs, opts, widx, cs, cph, csub, checkDone, verified, status, nruns, fs0>>
 MetaAP ==
     /\ rpc = "meta_ap"
     /\ fs' = SetAll(fs, "apm", Sh, "C") /\ rpc' = "meta_lf"
-    /\ UNCHANGED <<kind, opts, widx, cs, cph, csub, checkDone, status, nruns, fs0>>
+    /\ UNCHANGED <<kind, opts, widx, cs, cph, csub, checkDone, verified, status, nruns, fs0>>
 AfterMeta == IF kind = "NP24" /\ opts.chk THEN "check"
              ELSE IF opts.cmp THEN "compress"
              ELSE IF kind = "NP24" /\ opts.del THEN "delete" ELSE "return"
 MetaLF ==
     /\ rpc = "meta_lf"
     /\ fs' = SetAll(fs, "lfm", ShOf(kind), "C") /\ rpc' = AfterMeta
-    /\ UNCHANGED <<kind, opts, widx, cs, cph, csub, checkDone, status, nruns, fs0>>
+    /\ UNCHANGED <<kind, opts, widx, cs, cph, csub, checkDone, verified, status, nruns, fs0>>
 
 \* check_NP24: compares every window, then closes its readers and only then sets check_completed
 Check ==
     /\ rpc = "check" /\ rpc' = "check_closing"
-    /\ UNCHANGED <<kind, fs, opts, widx, cs, cph, csub, checkDone, status, nruns, fs0>>
+    /\ UNCHANGED <<kind, fs, opts, widx, cs, cph, csub, checkDone, verified, status, nruns, fs0>>
 CheckClosing ==
     /\ rpc = "check_closing"
-    /\ checkDone' = TRUE
+    /\ checkDone' = TRUE /\ verified' = TRUE
     /\ rpc' = (IF opts.cmp THEN "compress" ELSE IF opts.del THEN "delete" ELSE "return")
     /\ UNCHANGED <<kind, fs, opts, widx, cs, cph, csub, status, nruns, fs0>>
 
@@ -146,17 +147,17 @@ AfterCompress == IF kind = "NP24" /\ opts.del THEN "delete" ELSE "return"
 CompressOrig ==
     /\ rpc = "compress" /\ csub = "orig"
     /\ fs' = Set1(fs, "origc", "C") /\ csub' = "origrm"
-    /\ UNCHANGED <<kind, opts, rpc, widx, cs, cph, checkDone, status, nruns, fs0>>
+    /\ UNCHANGED <<kind, opts, rpc, widx, cs, cph, checkDone, verified, status, nruns, fs0>>
 CompressOrigRm ==
     /\ rpc = "compress" /\ csub = "origrm"
     /\ fs' = Set1(fs, "orig", "A") /\ csub' = (IF opts.ow THEN "stale" ELSE "comp")
-    /\ UNCHANGED <<kind, opts, rpc, widx, cs, cph, checkDone, status, nruns, fs0>>
+    /\ UNCHANGED <<kind, opts, rpc, widx, cs, cph, checkDone, verified, status, nruns, fs0>>
 StaleNow == csub = "stale"
 UnlinkStale ==         \* only when overwrite
     /\ rpc = "compress" /\ StaleNow /\ opts.ow
     /\ (Variant = "fixed" \/ fs[CbinKey] # "A")
     /\ fs' = Set1(fs, CbinKey, "A") /\ csub' = "comp"
-    /\ UNCHANGED <<kind, opts, rpc, widx, cs, cph, checkDone, status, nruns, fs0>>
+    /\ UNCHANGED <<kind, opts, rpc, widx, cs, cph, checkDone, verified, status, nruns, fs0>>
 UnlinkStaleRaises ==   \* before the fix: FileNotFoundError when there is no stale file
     /\ rpc = "compress" /\ StaleNow /\ opts.ow
     /\ Variant = "orig" /\ fs[CbinKey] = "A"
@@ -164,7 +165,7 @@ UnlinkStaleRaises ==   \* before the fix: FileNotFoundError when there is no sta
 CompressFile ==
     /\ rpc = "compress" /\ csub = "comp"
     /\ fs' = Set1(fs, CbinKey, "C") /\ csub' = "rmbin"
-    /\ UNCHANGED <<kind, opts, rpc, widx, cs, cph, checkDone, status, nruns, fs0>>
+    /\ UNCHANGED <<kind, opts, rpc, widx, cs, cph, checkDone, verified, status, nruns, fs0>>
 UnlinkBin ==
     /\ rpc = "compress" /\ csub = "rmbin"
     /\ fs' = Set1(fs, BinKey, "A")
@@ -173,7 +174,7 @@ UnlinkBin ==
        ELSE IF kind = "NP24" /\ cs + 1 < NSH
             THEN cph' = "ap" /\ cs' = cs + 1 /\ csub' = (IF opts.ow THEN "stale" ELSE "comp") /\ rpc' = rpc
             ELSE cph' = cph /\ cs' = cs /\ csub' = "done" /\ rpc' = AfterCompress
-    /\ UNCHANGED <<kind, opts, widx, checkDone, status, nruns, fs0>>
+    /\ UNCHANGED <<kind, opts, widx, checkDone, verified, status, nruns, fs0>>
 
 \* delete_NP24 (entered only when delete_original is set)
 Delete ==
@@ -182,7 +183,7 @@ Delete ==
               THEN (IF fs["orig"] = "C" THEN Set1(fs, "orig", "A") ELSE Set1(fs, "origc", "A"))
               ELSE fs)
     /\ rpc' = "return"
-    /\ UNCHANGED <<kind, opts, widx, cs, cph, csub, checkDone, status, nruns, fs0>>
+    /\ UNCHANGED <<kind, opts, widx, cs, cph, csub, checkDone, verified, status, nruns, fs0>>
 Return == /\ rpc = "return" /\ fs' = fs /\ Finish("1")
 
 \* an interruption (exception, kill) after any step of a run
@@ -198,7 +199,8 @@ Spec == Init /\ [][Next]_vars
 ShankAPComplete(f, s) == f[K("ap", s)] = "C" \/ f[K("apc", s)] = "C"
 \* the original samples stay recoverable byte for byte
 RecoverableP(k, f) == OrigPresent(f) \/ (k = "NP24" /\ \A s \in Sh : ShankAPComplete(f, s))
-\* the original disappears only after verification (NP2.4) / after it has been compressed in place (NP2.1)
+\* the original disappears only after verification (NP2.4) / after it has been compressed in place (NP2.1);
+\* cd = "the output now on disk has been verified against the original" (by the run that wrote it)
 DeleteGuardP(k, f, g, cd) ==
     /\ (k = "NP24" /\ OrigPresent(f) /\ ~OrigPresent(g)) => (cd /\ \A s \in Sh : ShankAPComplete(g, s))
     /\ (k # "NP24") => (OrigPresent(f) => OrigPresent(g))
@@ -222,7 +224,7 @@ OutcomeP(k, o, st, b, e) ==
     /\ (k \in {"NP24", "NP21"} /\ o.ow /\ st # "crashed") => st = "1"     \* a forced re-run completes from any state
 
 Recoverable == RecoverableP(kind, fs)
-DeleteGuard == [][DeleteGuardP(kind, fs, fs', checkDone')]_vars
+DeleteGuard == [][DeleteGuardP(kind, fs, fs', verified')]_vars
 Outcome == [][(rpc # "idle" /\ rpc' = "idle") => OutcomeP(kind, opts, status', fs0, fs')]_vars
 TypeOK == fs \in [Keys -> {"A", "P", "C"}]
 =============================================================================
